@@ -134,7 +134,7 @@ MANIFEST = {
                   'the sequential run, consumes batches in index order once, never exceeds max_parallel outstanding tasks, never '
                   'fetches a cancelled task and leaves no task behind (SMT validity queries per path, exhaustive decision tree).',
     'level_note': 'SchedClient replaces the worker pool (contract: monotone is_ready, blocking get_result); node operations are '
-                  'pure functions of (batch,row); <=4 batches, <=6..8 free readiness answers; real multiprocessing timing and '
+                  'pure functions of (batch,row); <=4 batches, <=6..8 free readiness answers; quantile- and threshold-driven 2-round SMC; every script of <=5 (7) submit/wait_next/cancel_pending/reset operations on the real BatchHandler with the sub-seed of every batch observed; real multiprocessing timing and '
                   'pickling are outside. z3 trusted.',
 }
 
